@@ -71,8 +71,10 @@ def step_sym(am, cfg, sym, stepno, max_yields=64):
     if sym == END:
         code, ev = am.end(cfg)
         return code, _conv(ev, stepno)
+    ov = 0
     for _ in range(max_yields):
         code, adv, ev = am.feed_byte(cfg, sym)
+        ov += am.overrides_in_step
         evs += _conv(ev, stepno)
         if code.startswith("YIELD"):
             if adv:
@@ -81,7 +83,7 @@ def step_sym(am, cfg, sym, stepno, max_yields=64):
         if code == "OK*":
             return "OK*", evs
         return code, evs
-    raise Spin("yields for ever without consuming", am.state_index(cfg))
+    raise Spin("yields for ever without consuming", am.state_index(cfg), ov > 0)
 
 
 def _conv(ev, stepno):
